@@ -33,7 +33,7 @@ CHECKS = {
          "Every cut point 0..len-1 of each file in a diverse corpus of valid stills is enumerated (exhaustive per file); a prefix result must be an error or equal the complete file's.",
          "Corpus files are small (<= 64 px) so that len(F) decodes per file stay cheap; thorough adds larger files with all cuts in the last 4 KiB and every 97th elsewhere.", "3/C17"),
  "C05": ("exploration", "hostile-input monitor in supervised child processes (recover/fatal/watchdog/alloc accounting/result well-formedness) + CPU-time scaling probe",
-         "Structure-aware mutation and hand-made declaration bombs against every decoding entry point (incl. ReadChunk, animation.Decode, readers without Len(), short reads, forced internal worker counts, extreme-aspect and Muxer-assembled seeds; playback past the end, Reset and replay, DecodeFrames called twice); each child logs the case before executing it, runs under ulimit -v, and measures TotalAlloc against a bound linear in input length and declared pixel area - where that is exceeded, the live heap of a second run sampled after forced collections decides; hangs are judged only after three isolated re-runs; 108 repeated-unit input families are timed (process CPU time) at n and 4n units, super-linear growth is a violation only at ratio > 10 with >= 0.4 s CPU three times in a row.",
+         "Structure-aware mutation and hand-made declaration bombs against every decoding entry point (incl. ReadChunk, animation.Decode, readers without Len(), short reads, forced internal worker counts, extreme-aspect and Muxer-assembled seeds; playback past the end, Reset and replay, DecodeFrames called twice); each child logs the case before executing it, runs under ulimit -v, and measures TotalAlloc against a bound linear in input length and declared pixel area - where that is exceeded, the input is a violation only if the live heap of a second, sampled run exceeds the bound too; hangs are judged only after three isolated re-runs; 108 repeated-unit input families are timed (process CPU time) at n and 4n units, super-linear growth is a violation only at ratio > 10 with >= 0.4 s CPU three times in a row.",
          "Declared area comes from an over-approximating scanner; inputs whose declared-size bound exceeds 1.5 GiB are not executed (counted as inconclusive).", "3/C05"),
  "C12": ("exploration", "cross-process differential monitor over GOMAXPROCS values",
          "The same case list runs in child processes of one binary with GOMAXPROCS in {1,2,3,4,8,16,32}; digests of Encode bytes (every second lossy case with all options drawn, dithering included; a lossy-alpha family over alpha content x AlphaFiltering x AlphaCompression x AlphaQuality), Decode pixels and parallel frame decoding (also of animations with several undecodable frames) must equal the GOMAXPROCS=1 child's.",
